@@ -1,6 +1,6 @@
 (* C01 - Auction accepts exactly the calls the Laws of bridge allow.
    Only statements, each closed by [exact]; proofs are in the files imported below. *)
-From BE Require Import Model.Auction Spec.Laws Proofs.Auction.
+From BE Require Import Model.Auction Spec.Laws Gen.AuctionFns Proofs.Auction Proofs.AuctionGen Proofs.AuctionGenCor.
 Local Open Scope nat_scope.
 
 (* after offering ANY list of calls (legal or not) from any dealer: the advertised vector is exactly the legal set of Spec/Laws.v *)
@@ -59,4 +59,36 @@ Theorem C01_example_refusals :
   [Illegal; Illegal; Ongoing; Illegal; Illegal; Illegal; Ongoing; Illegal; Ongoing; Ongoing; Illegal; Ongoing; Illegal].
 Proof. exact ex_refusals. Qed.
 Print Assumptions C01_example_refusals.
+
+(* take_bid REGENERATED from the text of bidding_phase.py on every run (harness/gen_auction.py) equals the hand model, for all states and calls *)
+Theorem C01_generated_model_is_hand_model :
+  forall s c, g_take_bid s c = take_bid s c.
+Proof. exact g_take_bid_eq. Qed.
+Print Assumptions C01_generated_model_is_hand_model.
+
+Theorem C01_generated_init_is_hand_model :
+  forall d v, g_init d v = init d v.
+Proof. exact g_init_eq. Qed.
+Print Assumptions C01_generated_init_is_hand_model.
+
+(* the property, for the regenerated functions *)
+Theorem C01_vector_is_legal_set_generated :
+  forall d v offers c,
+  active (g_reach d v offers) <> None ->
+  nth (call_idx c) (avail (g_reach d v offers)) false = legal d (hist (g_reach d v offers)) c.
+Proof. exact g_vector_is_legal_set. Qed.
+Print Assumptions C01_vector_is_legal_set_generated.
+
+Theorem C01_accept_iff_legal_generated :
+  forall d v offers c,
+  active (g_reach d v offers) <> None ->
+  (snd (g_take_bid (g_reach d v offers) c) = Ongoing \/ snd (g_take_bid (g_reach d v offers) c) = Finished)
+  <-> legal d (hist (g_reach d v offers)) c = true.
+Proof. exact g_accept_iff_legal. Qed.
+Print Assumptions C01_accept_iff_legal_generated.
+
+Theorem C01_rejected_is_noop_generated :
+  forall s c, snd (g_take_bid s c) = Illegal -> fst (g_take_bid s c) = s.
+Proof. exact g_rejected_is_noop. Qed.
+Print Assumptions C01_rejected_is_noop_generated.
 
